@@ -7,6 +7,7 @@ mod c05;
 mod c06;
 mod c09;
 mod c10;
+mod c10net;
 mod c11;
 mod common;
 mod storeops;
